@@ -125,4 +125,21 @@ CHECKS = {
         "quick": [T("TestC08", 8, 120, steps=30)],
         "thorough": [T("TestC08", 16, 5000, steps=30, timeout=3000)],
     },
+    "C01": {
+        "level": "exploration",
+        "rule": ("rapid: a primary node (std world, audit on/off) executes a generated history of 3-14 blocks from the full "
+                 "transaction grammar, weighted towards map-heavy paths (one-to-many episodes of 3-4 children with success/"
+                 "failure receipts in drawn order and timeouts, governance traffic, service updates); 2-3 further replicas "
+                 "re-execute the same blocks, each with a drawn variation vector: restart before a drawn subset of heights, "
+                 "proof type serial/parallel, GOMAXPROCS 1/4/16, account cache production/1/3, read-only execution of the block's "
+                 "own transactions before the block, and (1 in 6) rebuilt from genesis by replaying the whole stored chain "
+                 "including the prelude. Oracle: per height and replica equality of block hash, state/tx/receipt/timeout root, "
+                 "every marshalled receipt, delivery metadata (lists compared in order) and at the end the raw state store. "
+                 "Non-trivial = history with >=2 accepted one-to-many or governance transactions and >=1 replica restart; "
+                 "distinct = hash of history and replica plans."),
+        "assumptions": ["replicas run one after another in one process; the harness does not own the Go scheduler, divergence that needs a particular goroutine interleaving is only sampled",
+                        "a non-reproducing (rapid: flaky) failure is reported with its full history: the nondeterminism is the defect"],
+        "quick": [T("TestC01", 8, 50, steps=30)],
+        "thorough": [T("TestC01", 16, 2500, steps=30, timeout=3000)],
+    },
 }
